@@ -8,7 +8,7 @@
    A caller is tied to its UpstreamCall by the payload checksum (payloads are derived from g and tag, all distinct).
 
    Legal asynchrony: an API call may return by context / close although its ack is on the way; therefore "the ack was
-   reported" is judged (a) on returns: an error return is wrong only if the ack had been written at least 300 ms earlier on
+   reported" is judged (a) on returns: an error return is wrong only if the ack had been written at least 400 ms earlier on
    an incarnation that was still up, (b) at the first Quiesced (the script's settle point before Close): whatever the
    broker has delivered on a live incarnation must have produced its return.  With link faults in the trace "the first
    ack/reply for the id" is weakened to "some ack/reply for the id" (messages in flight may be lost).                  *)
@@ -17,7 +17,7 @@ EXTENDS MonCommon
 CallOps == {"SendCall", "SendReplyCall", "SendCallWait"}
 RecvOps == {"ReceiveCall", "ReceiveReplyCall"}
 InboxCap == 1024
-SlackUs == 300000
+SlackUs == 400000
 
 MonInit == [ calls |-> <<>>, rets |-> <<>>, bcalls |-> <<>>, acks |-> <<>>, sent |-> <<>>, rcalls |-> <<>>, recvs |-> <<>>,
              downs |-> <<>>, q1 |-> 0, closeAt |-> 0, faults |-> 0, recon |-> 0, watchdog |-> 0 ]
@@ -126,7 +126,8 @@ JudgeSettled(m, c) ==
         B == OkReplies(m, id, m.q1)
         live(x) == LiveUntil(m, x.c, m.q1)
         leak == IF Disturbed(m, id, m.q1) THEN {"ErrorLeaked"} ELSE {}
-        returned == \E k \in RetOf(m, c) : m.rets[k].i < m.q1
+        \* returned before the settle point, or later with something other than ctx / connClosed (slow, but delivered)
+        returned == \E k \in RetOf(m, c) : m.rets[k].i < m.q1 \/ m.rets[k].err \notin {"ctx", "connClosed"}
     IN IF m.q1 = 0 \/ c.i > m.q1 \/ returned \/ id = "" THEN {}
        ELSE IF c.op # "SendCallWait" THEN (IF Decides(m, A, LAMBDA a : live(a)) THEN {"AckResultWrong"} \cup leak ELSE {})
        ELSE IF Decides(m, A, LAMBDA a : a.code # 1 /\ live(a)) THEN {"AckResultWrong"} \cup leak
@@ -144,7 +145,7 @@ InboxWrongOp(m, op) ==
     LET A == Arr(m, op)
         R == Got(m, op)
         pos == [k \in 1..Len(R) |-> PosArr(A, R[k])]
-        Rq == SelectSeq(R, LAMBDA r : r.i < m.q1)
+        Rq == SelectSeq(R, LAMBDA r : r.ci < m.q1)        \* receives issued before the settle point that handed something over (possibly late)
         waiting == { k \in 1..Len(m.rcalls) : /\ m.rcalls[k].op = op /\ m.rcalls[k].i < m.q1
                                               /\ ~\E r \in RangeS(m.recvs) : r.ci = m.rcalls[k].i /\ r.err # "" /\ r.i < m.q1 }
         arrived == Cardinality({ j \in 1..Len(A) : A[j].i < m.q1 })
